@@ -89,6 +89,8 @@ pub(crate) struct LiveEvents<'a> {
     synthesized_null_emitted: bool,
     /// Single-item lookahead buffer (peeked event not yet consumed).
     look: Option<Ev<'a>>,
+    /// Number of events handed out by `next()` so far.
+    served: usize,
     /// For alias replay: a stack of injected buffers; we always read from the top first.
     inject: Vec<InjectFrame>,
     /// Recorded buffers for anchors (index = anchor_id).
@@ -177,6 +179,7 @@ impl<'a> LiveEvents<'a> {
             input: None, // Reader-based input cannot support zero-copy borrowing
             reader_tail: Some(tail),
             look: None,
+            served: 0,
             inject: Vec::with_capacity(2),
             anchors: Vec::with_capacity(8),
             rec_stack: Vec::with_capacity(2),
@@ -224,6 +227,7 @@ impl<'a> LiveEvents<'a> {
             input: Some(input),
             reader_tail: None,
             look: None,
+            served: 0,
             inject: Vec::with_capacity(2),
             anchors: Vec::with_capacity(8),
             rec_stack: Vec::with_capacity(2),
@@ -742,9 +746,14 @@ impl<'de> Events<'de> for LiveEvents<'de> {
 
         if let Some(ev) = self.look.take() {
             self.last_location = ev.location();
+            self.served += 1;
             return Ok(Some(ev));
         }
-        self.next_impl()
+        let ev = self.next_impl()?;
+        if ev.is_some() {
+            self.served += 1;
+        }
+        Ok(ev)
     }
     /// Peek at the next event without consuming it, filling the lookahead buffer if empty.
     fn peek(&mut self) -> Result<Option<&Ev<'de>>, Error> {
@@ -816,6 +825,13 @@ impl<'a> LiveEvents<'a> {
     ///
     /// Returns `true` if a new document was found, `false` if EOF was reached.
     /// Syntax errors during skipping cause the method to return `false` (EOF-like).
+    /// Number of events handed out so far. The multi-document loops compare it before and after
+    /// a document is deserialized: a target type whose `Deserialize` impl reads nothing would
+    /// otherwise be handed the same pending event forever.
+    pub(crate) fn served(&self) -> usize {
+        self.served
+    }
+
     pub(crate) fn skip_to_next_document(&mut self) -> bool {
         // Clear any peeked event and injection state
         self.look = None;
